@@ -48,11 +48,11 @@ theorem Pol.of_frame {s s' : St} (hf : Frame c0 n0 ids0 s') (h3 : s'.picks = s.p
   unfold PicksFrom; rw [h3]; exact h.2
 
 theorem Pol.setServer {s : St} (v : Server) (h : Pol c0 n0 ids0 p0 s) : Pol c0 n0 ids0 p0 (s.setServer v) :=
-  Pol.of_frame (Frame.setServer v h.1) rfl h
+  Pol.of_frame (s := s) (Frame.setServer v h.1) rfl h
 
 theorem Pol.modServer {s : St} {id : Nat} {f : Server → Server} (hf : ∀ v, (f v).id = v.id)
     (h : Pol c0 n0 ids0 p0 s) : Pol c0 n0 ids0 p0 (s.modServer id f) :=
-  Pol.of_frame (Frame.modServer hf h.1) rfl h
+  Pol.of_frame (s := s) (Frame.modServer hf h.1) rfl h
 
 theorem Pol.incFailures {s : St} {id : Nat} {tcp : Bool} (h : Pol c0 n0 ids0 p0 s) :
     Pol c0 n0 ids0 p0 (s.incFailures id tcp) := by
@@ -83,7 +83,7 @@ theorem Pol.pick {s : St} (e : Pick) (he : PickOk c0.rotate ids0 e) (h : Pol c0 
     · simp only [List.mem_singleton] at hx; subst hx; exact he
 
 chan_simple_lemmas Pol : (Pol c0 n0 ids0 p0) =>
-  emit slog ofault mfault oof setQuery setConn setSock modQuery modConn modSock modClient cacheExpire
+  emit slog ofault mfault oofSt setQuery setConn setSock modQuery modConn modSock modClient cacheExpire
 
 end
 
@@ -186,11 +186,12 @@ theorem pick_entry_ok (s : St) (reqSrv : Option Nat) (key : Nat) (srv : Server) 
         subst hh
         have hs := sortedServers_sorted s
         rw [hl, List.pairwise_cons] at hs
+        show x.id ≤ w.id
         rcases List.mem_cons.1 hw with rfl | hw
         · exact Nat.le_refl _
         · have := hs.1 w hw
           unfold srvLe at this
-          dsimp only at hpf
+          have hpf' : w.failures = x.failures := hpf
           omega
 
 end Cares.Chan
